@@ -174,7 +174,8 @@ impl ListType {
     pub fn upper_bound(&self) -> ListBound {
         match self {
             Self::Open { .. } => ListBound::Infinite,
-            Self::Mixed(types) => ListBound::Numeric(types.len() - 1),
+            // the empty list has no valid index: every lookup is rejected by `get_type_at_known_index`
+            Self::Mixed(types) => ListBound::Numeric(types.len().saturating_sub(1)),
         }
     }
 
